@@ -39,15 +39,30 @@ def run_case(case):
             n = int(rng.integers(250, 301))
             gaps = rng.uniform(8, 10, n)
             drift = float(rng.choice([-1, 1])) * float(rng.uniform(80, 100)) * 1e-6
+        short_gaps = None
+        if rng.random() < 0.15:
+            # long recording (span > 2500 s) with a few of the shortest admissible gaps (0.5 s) in it; events next to those gaps go missing on one side
+            n = int(rng.integers(270, 301))
+            gaps = rng.uniform(9, 10, n)
+            short_gaps = np.sort(rng.choice(np.arange(5, n - 5), int(rng.integers(3, 7)), replace=False))
+            gaps[short_gaps] = rng.uniform(0.5, 0.55, short_gaps.size)
+            drift = float(rng.uniform(-30, 30)) * 1e-6
         t_true = np.cumsum(gaps) + float(rng.uniform(0, 100))
         offset = float(rng.uniform(-180, 180))
         jit = float(rng.uniform(0, 1e-4))
         ma, mb = int(rng.integers(0, 6)), int(rng.integers(0, 6))
         drop_a = np.sort(rng.choice(n, ma, replace=False))
         drop_b = np.sort(rng.choice(np.setdiff1d(np.arange(n), drop_a), mb, replace=False))
-        if rng.random() < 0.2 and ma:
+        if short_gaps is not None:
+            # gap k separates events k-1 and k: drop one of the two on series b (and, for other gaps, on series a)
+            pick = rng.permutation(short_gaps)
+            drop_b = np.unique([int(g - rng.integers(0, 2)) for g in pick[: max(1, pick.size // 2)]])
+            drop_a = np.setdiff1d(np.unique([int(g - rng.integers(0, 2)) for g in pick[max(1, pick.size // 2):]]), np.r_[drop_b, drop_b - 1, drop_b + 1])
+            ma, mb = drop_a.size, drop_b.size
+            res.count("long_trains_with_short_gaps")
+        if rng.random() < 0.2 and ma and short_gaps is None:
             drop_a[0] = 0
-        if rng.random() < 0.2 and mb and (n - 1) not in drop_a:
+        if rng.random() < 0.2 and mb and (n - 1) not in drop_a and short_gaps is None:
             drop_b[-1] = n - 1
         drop_b = np.setdiff1d(drop_b, drop_a)
         ia_true = np.setdiff1d(np.arange(n), drop_a)
